@@ -154,6 +154,26 @@ Definition kev_ok (e : kev) : Prop :=
 Definition ksession_start (t0 : str) (evs : list kev) : str :=
   fold_left (fun acc e => match e with KReset t _ => t | _ => acc end) evs t0.
 
+(* Key-level ghost history: the (text, cursor) the buffer had when each earlier
+   COMMAND of the current prompt was dispatched - one entry per key event (or
+   direct redo() call), newest first; no mid-dispatch states.  A terminal
+   report is not a command and adds nothing; a new prompt starts it afresh. *)
+Definition kgstep (tbl : list row) (g : kst * list snap) (e : kev) : kst * list snap :=
+  (kstep tbl (fst g) e,
+   match e with
+   | KReset _ _ => []
+   | Cpr => snd g
+   | _ => here (kbuf (fst g)) :: snd g
+   end).
+
+Definition kgrun (tbl : list row) (s : kst) (evs : list kev) : kst * list snap :=
+  fold_left (kgstep tbl) evs (s, []).
+
+(* no binding's handler calls Buffer.redo (true of the real table; a handler
+   calling redo() more than once would snapshot mid-dispatch states) *)
+Definition tbl_no_redo_handler (tbl : list row) : Prop :=
+  forall h, r_act (lookup tbl h) <> 2.
+
 (* How often the undo handlers call Buffer.undo():
      vi._undo:             for i in range(event.arg): event.current_buffer.undo()
      named_commands.undo:  event.current_buffer.undo()
@@ -200,8 +220,15 @@ Definition dec_kev (tbl : list row) (x : sx) : option kev :=
       match as_bool nav with
       | Some nv =>
           let r := lookup tbl h in
+          (* Vi navigation mode at fix-up time is not an input either: the Vi u
+             binding (role 4) is registered under filter vi_navigation_mode and
+             its handler leaves the input mode alone; the emacs undo keys (role
+             5) only exist in emacs mode.  The harness sends what
+             vi_navigation_mode() said inside _fix_vi_cursor_position; a
+             different value is rejected (-> reported as a disagreement). *)
           if (0 <=? h) && (h <? nrows) && (r_act r =? 1) && ((r_role r =? 4) || (r_role r =? 5))
-          then Some (UndoKey h (undo_calls (r_role r) arg) nv) else None
+             && Bool.eqb nv (r_role r =? 4)
+          then Some (UndoKey h (undo_calls (r_role r) arg) (r_role r =? 4)) else None
       | None => None
       end
   | L [A 4] => Some Cpr
